@@ -44,6 +44,7 @@ def dispatch (fam : String) : Option (List String → String → Option Res) :=
   | "repstake" => some runRepStake
   | "slash" => some runSlash
   | "settle" => some runSettle
+  | "settlerich" => some runSettle
   | "lifecycle" => some runLifecycle
   | "coversettle" => some runCover
   | "tbrsplit" => some runTbr
@@ -56,6 +57,7 @@ def dispatch (fam : String) : Option (List String → String → Option Res) :=
   | "framesettle" => some runFrameSettle
   | "nohaltsettle" => some runNoHaltSettle
   | "nohaltslash" => some runNoHaltSlash
+  | "snapshotsum" => some runSnapshotSum
   | "claim" => some runClaim
   | "oracle" => some runOracle
   | "oracle7" => some runOracle7
